@@ -201,9 +201,25 @@ type GetCollectionResponse struct {
 	Shards         []ShardItem `json:"shards"`
 }
 
+// Every collection created with the v1 API has a single vamana indexed property
+// called "vector". Collections created with a later API version share the same
+// namespace but may have any schema, those cannot be served by the v1 endpoints.
+func v1VectorParams(collection models.Collection) (*models.IndexVectorVamanaParameters, error) {
+	schema, ok := collection.IndexSchema["vector"]
+	if !ok || schema.VectorVamana == nil {
+		return nil, fmt.Errorf("collection %s is not a v1 collection, please use a later API version", collection.Id)
+	}
+	return schema.VectorVamana, nil
+}
+
 func (sdbh *SemaDBHandlers) HandleGetCollection(w http.ResponseWriter, r *http.Request) {
 	// ---------------------------
 	collection := r.Context().Value(collectionContextKey).(models.Collection)
+	vectorParams, err := v1VectorParams(collection)
+	if err != nil {
+		utils.Encode(w, http.StatusBadRequest, map[string]string{"error": err.Error()})
+		return
+	}
 	// ---------------------------
 	shards, err := sdbh.clusterNode.GetShardsInfo(collection)
 	if errors.Is(err, cluster.ErrShardUnavailable) {
@@ -221,8 +237,8 @@ func (sdbh *SemaDBHandlers) HandleGetCollection(w http.ResponseWriter, r *http.R
 	}
 	resp := GetCollectionResponse{
 		Id:             collection.Id,
-		VectorSize:     collection.IndexSchema["vector"].VectorVamana.VectorSize,
-		DistanceMetric: collection.IndexSchema["vector"].VectorVamana.DistanceMetric,
+		VectorSize:     vectorParams.VectorSize,
+		DistanceMetric: vectorParams.DistanceMetric,
 		Shards:         shardItems,
 	}
 	utils.Encode(w, http.StatusOK, resp)
@@ -299,12 +315,17 @@ func (sdbh *SemaDBHandlers) HandleInsertPoints(w http.ResponseWriter, r *http.Re
 	// ---------------------------
 	// Get corresponding collection
 	collection := r.Context().Value(collectionContextKey).(models.Collection)
+	vectorParams, err := v1VectorParams(collection)
+	if err != nil {
+		utils.Encode(w, http.StatusBadRequest, map[string]string{"error": err.Error()})
+		return
+	}
 	// ---------------------------
 	// Convert request points into internal points, doing checks along the way
 	points := make([]models.Point, len(req.Points))
 	for i, point := range req.Points {
-		if len(point.Vector) != int(collection.IndexSchema["vector"].VectorVamana.VectorSize) {
-			errMsg := fmt.Sprintf("invalid vector dimension, expected %d got %d for point at index %d", collection.IndexSchema["vector"].VectorVamana.VectorSize, len(point.Vector), i)
+		if len(point.Vector) != int(vectorParams.VectorSize) {
+			errMsg := fmt.Sprintf("invalid vector dimension, expected %d got %d for point at index %d", vectorParams.VectorSize, len(point.Vector), i)
 			utils.Encode(w, http.StatusBadRequest, map[string]string{"error": errMsg})
 			return
 		}
@@ -401,12 +422,17 @@ func (sdbh *SemaDBHandlers) HandleUpdatePoints(w http.ResponseWriter, r *http.Re
 	// ---------------------------
 	// Get corresponding collection
 	collection := r.Context().Value(collectionContextKey).(models.Collection)
+	vectorParams, err := v1VectorParams(collection)
+	if err != nil {
+		utils.Encode(w, http.StatusBadRequest, map[string]string{"error": err.Error()})
+		return
+	}
 	// ---------------------------
 	// Convert request points into internal points, doing checks along the way
 	points := make([]models.Point, len(req.Points))
 	for i, point := range req.Points {
-		if len(point.Vector) != int(collection.IndexSchema["vector"].VectorVamana.VectorSize) {
-			errMsg := fmt.Sprintf("invalid vector dimension, expected %d got %d for point at index %d", collection.IndexSchema["vector"].VectorVamana.VectorSize, len(point.Vector), i)
+		if len(point.Vector) != int(vectorParams.VectorSize) {
+			errMsg := fmt.Sprintf("invalid vector dimension, expected %d got %d for point at index %d", vectorParams.VectorSize, len(point.Vector), i)
 			utils.Encode(w, http.StatusBadRequest, map[string]string{"error": errMsg})
 			return
 		}
@@ -534,10 +560,15 @@ func (sdbh *SemaDBHandlers) HandleSearchPoints(w http.ResponseWriter, r *http.Re
 	// ---------------------------
 	// Get corresponding collection
 	collection := r.Context().Value(collectionContextKey).(models.Collection)
+	vectorParams, err := v1VectorParams(collection)
+	if err != nil {
+		utils.Encode(w, http.StatusBadRequest, map[string]string{"error": err.Error()})
+		return
+	}
 	// ---------------------------
 	// Check vector dimension
-	if len(req.Vector) != int(collection.IndexSchema["vector"].VectorVamana.VectorSize) {
-		errMsg := fmt.Sprintf("invalid vector dimension, expected %d got %d", collection.IndexSchema["vector"].VectorVamana.VectorSize, len(req.Vector))
+	if len(req.Vector) != int(vectorParams.VectorSize) {
+		errMsg := fmt.Sprintf("invalid vector dimension, expected %d got %d", vectorParams.VectorSize, len(req.Vector))
 		utils.Encode(w, http.StatusBadRequest, map[string]string{"error": errMsg})
 		return
 	}
